@@ -41,13 +41,17 @@ ASSUMPTIONS = ['asyncio: FIFO ready queue, gather() schedules its arguments in o
                'queued=False: callbacks do not await triggers in the model-compared stream (an awaited trigger is a '
                'suspension of unknown length; compared implementation-to-implementation in extra_checks when the awaiting '
                'callback is the last of a non-suspending stage); queued="model": callbacks trigger only their own model',
-               'HierarchicalAsyncMachine: covered by correspondence with the synchronous hierarchical model only (no '
-               'Gallina model of the nested async engine)']
+               'HierarchicalAsyncMachine: AsyncHsm.v models the nested async engine awaited one trigger at a time without a '
+               'queue layer (queued modes of the hierarchical class only change the returned value, masked) and, like Hsm.v, '
+               'answers False after an exception swallowed by on_exception (masked: _mask_handled)']
 THEOREMS = ['C07_flat', 'C07_flat_named', 'C07_flat_documented_order', 'C07_flat_raising', 'C07_raising_example',
             'C07_may', 'C07_awaited', 'C07_flat_sequence', 'C07_completed', 'C07_start_order', 'C07_cond_awaitable',
             'C07_cond_value', 'C07_example', 'C07_unknown_event', 'C07_flat_any_name', 'C07_unknown_event_example',
-            'C07_raise_stage_refuted']
-THEOREM_OF_DIFF = 'corr_C07: Async.v (flat) / Hsm.v up to stage_view (hierarchical) vs transitions.extensions.asyncio'
+            'C07_raise_stage_refuted', 'C07_queue_refines', 'C07_queue_top_refines', 'C07_queue_shared',
+            'C07_queue_fifo_once', 'C07_queue_raise_discards', 'C07_queue_top', 'C07_queue_deferred',
+            'C07_queue_example', 'C07_nested', 'C07_nested_may', 'C07_nested_stage_starts',
+            'C07_nested_cond_awaitable', 'C07_nested_example']
+THEOREM_OF_DIFF = 'corr_C07: Async.v (flat) / AsyncHsm.v (hierarchical, exact Start/End events) and Hsm.v up to stage_view vs transitions.extensions.asyncio'
 
 MODES = [False, True, 'model']
 
@@ -270,7 +274,7 @@ def gen_hsm(rng, i):
     base['env']['bypos'] = {}                 # position-free replies: the async machine evaluates more checks
     base['env']['bycb'] = {str(k): v for k, v in base['env']['bycb'].items()}
     case = dict(tag=1, machine=base['machine'], env=base['env'], model=0, init=base['init'], history=base['history'],
-                cls='HierarchicalAsyncMachine', mode=rng.choice([0, 0, 1, 2]))
+                cls='HierarchicalAsyncMachine', mode=rng.choice([0, 0, 1, 2]), susp_key={})
     ncb = 0
     lists = stage_lists(case)
     for _, l in lists:
@@ -340,7 +344,9 @@ def enc(case):
     if case['tag'] == 1:
         c2 = dict(machine=case['machine'], env=case['env'], model=case.get('model', 0), init=case['init'],
                   history=case['history'])
-        return [1, hsm.enc_case(c2)]
+        hsusp = [enc_keyed(case.get('susp_key', {}), int),
+                 [[int(c), susp_of_flavour(f)] for c, f in sorted(case['flavour'].items(), key=lambda kv: int(kv[0]))]]
+        return [1, hsm.enc_case(c2), enc_aenv(case['env']), hsusp]
     susp = [enc_keyed(case['susp_key'], int),
             [[int(c), susp_of_flavour(f)] for c, f in sorted(case['flavour'].items(), key=lambda kv: int(kv[0]))]]
     return [0, flat.enc_machine(case['machine']), enc_aenv(case['env']), susp, case['mode'],
@@ -695,23 +701,31 @@ def canon(case, obs):
         return obs
     if case['tag'] == 1:
         queued = case['mode'] != 0
-        if isinstance(obs, dict):                 # implementation: async run, viewed
-            steps = []
-            for evs, view, res, forest in obs['a']:
-                if queued and res[0] == 0 and case_call_kind(case, len(steps)) != 1:
-                    res = [0, True]
-                res = _mask_handled(case, view, res)
-                steps.append([view, res, forest])
-            return [1, obs['init'], steps, oracle_raw(case, obs) or 'sync-impl-agrees']
-        if obs[0] != 1:
-            return obs
-        steps = []
-        for items, res, forest in obs[2]:         # synchronous hierarchical model
-            if queued and res[0] == 0 and case_call_kind(case, len(steps)) != 1:
+
+        def fix(view, res, idx):
+            if queued and res[0] == 0 and case_call_kind(case, idx) != 1:
                 res = [0, True]
-            res = _mask_handled(case, items, res)
-            steps.append([items, res, forest])
-        return [1, obs[1], steps, 'sync-impl-agrees']
+            return _mask_handled(case, view, res)
+        if isinstance(obs, dict):                 # implementation: async run (exact events and view)
+            steps, events = [], []
+            for evs, view, res, forest in obs['a']:
+                steps.append([view, fix(view, res, len(steps)), forest])
+                events.append([ev for ev in evs if ev[0] != 2])
+            return [1, obs['init'], steps, events, 'hsm-models-agree', oracle_raw(case, obs) or 'sync-impl-agrees']
+        if obs[0] != 2:
+            return obs
+        sync, asteps = obs[1], obs[2]             # synchronous (Hsm.v) and asynchronous (AsyncHsm.v) hierarchical models
+        if sync[0] != 1:
+            return obs
+        steps, events = [], []
+        flag = 'hsm-models-agree'
+        for idx, ((items, res, forest), (aevs, aview, ares, aforest)) in enumerate(zip(sync[2], asteps)):
+            steps.append([items, fix(items, res, idx), forest])
+            events.append(aevs)
+            # the theorem C07_nested re-checked on the extracted code (and on raising-last cases)
+            if sync_comparable(case) and flag == 'hsm-models-agree' and (aview != items or ares != res or aforest != forest):
+                flag = 'call %d: AsyncHsm.v differs from Hsm.v up to stage_view' % idx
+        return [1, sync[1], steps, events, flag, 'sync-impl-agrees']
     # flat
     if isinstance(obs, dict):
         return [1, [[[[b[0], b[1], b[2], b[3]] for b in st[0]], st[1], st[2]] for st in obs['a']],
